@@ -443,3 +443,187 @@ kproof! {
         core::mem::forget(locs);
     }
 }
+
+// ---------------------------------------------------------------------------
+// Scanner cursor arithmetic with EVERY callee (incl. next_signature) replaced by its contract: no loop over file
+// bytes is left, so the cursor may be symbolic.  The contract of next_signature is discharged by
+// k01n_next_signature_contract (below) and k06d_signature_table.
+// ---------------------------------------------------------------------------
+pub static mut SIG_CALLS: u32 = 0;
+pub static mut SIG_MAX: u32 = 0;
+pub static mut IDAT_CALL: bool = false;
+/// inductive-step mode: the first hit is a zlib header whose stream is accepted (any position, any consumed length),
+/// which puts the scanner into an ARBITRARY reachable state prev_index == P, 3 <= P <= n, with the chunks so far tiling
+/// [0, P); the hit after it is fully symbolic.  (After any accept prev_index == index; after a reject only index moves.)
+pub static mut FIRST_ZLIB_ACCEPT: bool = false;
+pub static mut DEC_CALLS: u32 = 0;
+/// CONTRACT of next_signature: None (index untouched), or Some(kind) with the new index in old..=len-2.
+/// Kind and position of every hit are symbolic.  At most SIG_MAX hits per file (the stated bound).
+fn contract_next_signature(src: &[u8], index: &mut usize) -> Option<Signature> {
+    // the call counter is advanced unconditionally and first, so that it stays concrete under symbolic execution
+    let c = unsafe { let c = SIG_CALLS; SIG_CALLS += 1; c };
+    if c >= unsafe { SIG_MAX } { return None; }
+    let forced = c == 0 && unsafe { FIRST_ZLIB_ACCEPT };
+    if src.len() < 2 || (!forced && kani::any()) { return None; }
+    let k: u8 = if forced { SIG_ZLIB } else { kani::any() };
+    let i: usize = kani::any();
+    kani::assume(i >= *index && i <= src.len() - 2);
+    *index = i;
+    Some(match k { SIG_ZLIB => Signature::Zlib(0), SIG_ZIP => Signature::ZipLocalFileHeader, SIG_GZIP => Signature::Gzip, _ => Signature::IDAT })
+}
+static BIG_PLAIN: [u8; 1025] = [0u8; 1025];
+/// decompress_deflate_stream contract without heap traffic: a rejected analysis is Err or an Ok whose plaintext is
+/// below the threshold (empty Vec: no allocation); an accepted one carries 1025 bytes of plaintext that live in a
+/// static (the harness never drops accepted results)
+pub fn contract_decompress_light(compressed_data: &[u8], _verify: bool, _loglevel: u32) -> core::result::Result<DecompressResult, crate::preflate_error::PreflateError> {
+    let dc = unsafe { let d = DEC_CALLS; DEC_CALLS += 1; d };
+    let forced = dc == 0 && unsafe { FIRST_ZLIB_ACCEPT };
+    if forced {
+        kani::assume(!compressed_data.is_empty());
+        let cs: usize = kani::any();
+        kani::assume(cs >= 1 && cs <= compressed_data.len());
+        let plain = unsafe { Vec::from_raw_parts(BIG_PLAIN.as_ptr() as *mut u8, 1025, 1025) };
+        return Ok(DecompressResult { plain_text: plain, prediction_corrections: Vec::new(), compressed_size: cs, parameters: dummy_params() });
+    }
+    if compressed_data.is_empty() || kani::any() {
+        return Err(crate::preflate_error::PreflateError::new(ExitCode::InvalidDeflate, ""));
+    }
+    let cs: usize = kani::any();
+    kani::assume(cs >= 1 && cs <= compressed_data.len());
+    // (the PNG arm thresholds on the chunk length, not on the plaintext, and may drop an accepted result: no static there)
+    let big: bool = kani::any() && !unsafe { IDAT_CALL };
+    unsafe { IDAT_CALL = false; }
+    let plain = if big { unsafe { Vec::from_raw_parts(BIG_PLAIN.as_ptr() as *mut u8, 1025, 1025) } } else { Vec::new() };
+    Ok(DecompressResult { plain_text: plain, prediction_corrections: Vec::new(), compressed_size: cs, parameters: dummy_params() })
+}
+pub fn contract_parse_zip_light(contents: &[u8]) -> Result<(usize, DecompressResult)> {
+    if contents.len() < 31 || kani::any() {
+        return err_exit_code(ExitCode::InvalidDeflate, "");
+    }
+    let h: usize = kani::any();
+    kani::assume(h >= 30 && h < contents.len());
+    let r = contract_decompress_light(&contents[h..], true, 0)?;
+    Ok((h, r))
+}
+/// CONTRACT of parse_idat, richer variant (discharged by k01e_idat_*): Err, or Ok with one recorded chunk of c bytes,
+/// total_chunk_length = c + 12 <= len, payload = c - 6 bytes (zlib header and Adler-32 split off)
+pub fn contract_parse_idat_one(png: &[u8], _lvl: u32) -> Result<(IdatContents, Vec<u8>)> {
+    if png.len() < 18 || kani::any() {
+        return err_exit_code(ExitCode::InvalidIDat, "");
+    }
+    let c: usize = kani::any();
+    kani::assume(c >= 6 && c <= png.len() - 12);
+    unsafe { IDAT_CALL = true; }
+    let mut payload: Vec<u8> = Vec::with_capacity(SCAN_N);
+    unsafe { payload.set_len(c - 6); }
+    let mut sizes: Vec<u32> = Vec::with_capacity(1);
+    sizes.push(c as u32);
+    Ok((IdatContents { chunk_sizes: sizes, zlib_header: [0, 0], total_chunk_length: c + 12, addler32: 0 }, payload))
+}
+/// CONTRACT of skip_gzip_header without the 16-byte cap: Err, or Ok after consuming k >= 10 bytes (k01_gzip_hdr_16: k
+/// is the RFC 1952 header length, which has no upper bound below the file length)
+pub fn contract_skip_gzip_any<R: Read>(reader: &mut R) -> Result<()> {
+    // the scanner's only instantiation is R = Cursor<&[u8]>; moving the cursor directly avoids a copy of symbolic length
+    let c: &mut Cursor<&[u8]> = unsafe { &mut *(reader as *mut R as *mut Cursor<&[u8]>) };
+    let k: usize = kani::any();
+    kani::assume(k >= 10);
+    if k > c.get_ref().len() || kani::any() {
+        return err_exit_code(ExitCode::InvalidDeflate, "");
+    }
+    c.set_position(k as u64);
+    Ok(())
+}
+const SCAN_N: usize = 1100;
+fn scan_cursor<const HITS: usize>() { scan_cursor_x::<HITS>(false) }
+fn scan_cursor_x<const HITS: usize>(first_zlib_accept: bool) {
+    unsafe { SIG_CALLS = 0; SIG_MAX = HITS as u32; IDAT_CALL = false; DEC_CALLS = 0; FIRST_ZLIB_ACCEPT = first_zlib_accept; }
+    let data = [0u8; SCAN_N];
+    let n: usize = kani::any();
+    kani::assume(n <= SCAN_N);
+    let mut locs: Vec<BlockChunk> = Vec::with_capacity(2 * HITS + 1);
+    split_into_deflate_streams(&data[..n], &mut locs, 0);
+    // what expand_zlib_chunks / recreated_zlib_chunks need from the chunk list
+    let mut index = 0usize;
+    let mut i = 0;
+    let mut streams = 0;
+    while i < 2 * HITS + 1 {
+        if i < locs.len() {
+            match &locs[i] {
+                BlockChunk::Literal(k) => {
+                    assert!(*k <= n - index, "literal chunk longer than the remaining file (expand would slice out of range)");
+                    index += *k;
+                }
+                BlockChunk::DeflateStream(r) => { index += r.compressed_size; streams += 1; }
+                BlockChunk::IDATDeflate(id, r) => {
+                    assert!(id.chunk_sizes.len() == 1);
+                    assert!(id.chunk_sizes[0] as usize == r.compressed_size + 6, "a PNG chunk is emitted that recreate_idat will reject (chunk sizes != stream length + 6)");
+                    index += id.total_chunk_length; streams += 1;
+                }
+            }
+            assert!(index <= n, "chunks overrun the file");
+        }
+        i += 1;
+    }
+    assert!(index == n, "chunks do not tile the file");
+    kani::cover!(streams == HITS, "every hit accepted");
+    kani::cover!(first_zlib_accept || (streams == 0 && n > 2), "nothing accepted");
+    core::mem::forget(locs);
+}
+macro_rules! scan_c { ($($(#[$m:meta])* $n:ident: $h:expr;)*) => { $( kproof! {
+    $(#[$m])*
+    #[kani::stub(crate::scan_deflate::next_signature, contract_next_signature)]
+    #[kani::stub(std::vec::Vec::push, crate::verif_common::stub_vec_push_split)]
+    #[kani::stub(crate::preflate_container::decompress_deflate_stream, contract_decompress_light)]
+    #[kani::stub(crate::scan_deflate::skip_gzip_header, contract_skip_gzip_any)]
+    #[kani::stub(crate::scan_deflate::parse_zip_stream, contract_parse_zip_light)]
+    #[kani::stub(crate::idat_parse::parse_idat, contract_parse_idat_one)]
+    fn $n() { scan_cursor::<$h>(); }
+} )* } }
+scan_c! {
+    /// K01s-1: one signature hit of any kind anywhere in a file of any length <= 1100, every contract-allowed outcome
+    k01s_scan_cursor_1: 1;
+    /// K01s-2: two hits (the second anywhere at or after the cursor the first left: e.g. "IDAT" right behind a zlib stream)
+    k01s_scan_cursor_2: 2;
+    k01s_scan_cursor_3: 3;
+}
+kproof! {
+    /// K01s-step: ONE loop iteration of the scanner from an arbitrary reachable cursor state (see FIRST_ZLIB_ACCEPT):
+    /// with k01s_scan_cursor_1 (state prev_index == 0) this is the inductive step for files with any number of hits
+    #[kani::stub(crate::scan_deflate::next_signature, contract_next_signature)]
+    #[kani::stub(std::vec::Vec::push, crate::verif_common::stub_vec_push_split)]
+    #[kani::stub(crate::preflate_container::decompress_deflate_stream, contract_decompress_light)]
+    #[kani::stub(crate::scan_deflate::skip_gzip_header, contract_skip_gzip_any)]
+    #[kani::stub(crate::scan_deflate::parse_zip_stream, contract_parse_zip_light)]
+    #[kani::stub(crate::idat_parse::parse_idat, contract_parse_idat_one)]
+    fn k01s_scan_step() { scan_cursor_x::<2>(true); }
+}
+
+kproof! {
+    /// K01n: the contract used above, discharged on the real next_signature: a result of None leaves the index
+    /// untouched; Some moves it forward to a position <= len - 2 that holds a signature, and skips no signature
+    fn k01n_next_signature_contract() {
+        let d: [u8; 5] = kani::any();
+        let n: usize = kani::any();
+        kani::assume(n <= 5);
+        let start: usize = kani::any();
+        kani::assume(start <= 6);
+        let mut index = start;
+        let r = next_signature(&d[..n], &mut index);
+        let is_sig = |a: u8, b: u8| (a == 0x78 && (b == 0x01 || b == 0x5e || b == 0x9c || b == 0xda)) || (a == 0x50 && b == 0x4b) || (a == 0x1f && b == 0x8b) || (a == 0x49 && b == 0x44);
+        match r {
+            None => {
+                assert!(index == start, "None must leave the cursor untouched");
+                let mut i = 0;
+                while i + 1 < 5 { if i >= start && i + 1 < n { assert!(!is_sig(d[i], d[i + 1]), "a signature was skipped"); } i += 1; }
+            }
+            Some(_) => {
+                assert!(n >= 2 && index >= start && index <= n - 2, "cursor outside start..=len-2");
+                assert!(is_sig(d[index], d[index + 1]));
+                let mut i = 0;
+                while i + 1 < 5 { if i >= start && i < index { assert!(!is_sig(d[i], d[i + 1]), "an earlier signature was skipped"); } i += 1; }
+            }
+        }
+        kani::cover!(r.is_some() && index == 3, "hit at the last pair");
+        kani::cover!(r.is_none() && start > n, "cursor already past the end");
+    }
+}
